@@ -51,11 +51,53 @@ def run(tier):
     for ev, other in mism:
         fails.append((ev, ["backends-differ"]))
     run.extra["cross_backend_groups_compared"] = len(seen)
-    run.extra["configs_uncovered"] = ["aarch64 assembly (not executable here; see DESIGN.md C03)", "armv6-m assembly (cannot be assembled here)"]
-    run.classify(fails, key_of, confirm_factory(run))
-    run.assumptions += ["AArch64 and ARMv6-M assembly sources are not executed (no assembler/emulator for them in this sandbox); "
-                        "their algorithm shapes are covered by MC_WordArith only"]
+    # AArch64: the assembled routines of the tree under test are executed by TLC (IsaA64.tla) on the same raw-primitive vectors
+    a64_fails, a64_note = aarch64(run, cases, tier)
+    fails += a64_fails
+    run.extra["configs_uncovered"] = ["armv6-m assembly (pre-UAL syntax: cannot be assembled here)"] + ([a64_note] if a64_note else [])
+    def conf(ev, labels):
+        if ev.get("cfg") == "a64": return True          # TLC's execution of the listing is deterministic
+        return confirm_factory(run)(ev, labels)
+    run.classify(fails, key_of, conf)
+    run.assumptions += ["the AArch64 back end is executed by an ISA-subset semantics written in TLA+ (IsaA64.tla: 15 mnemonics, flags C and Z, "
+                        "64-bit word memory) on llvm-objdump's listing of the assembled sources, not on hardware",
+                        "ARMv6-M assembly is not executed or assembled (no tool accepts its syntax here); its algorithm shape is covered by MC_WordArith only"]
     return run.finish(RULE, "MC_WordArith: shapes equal for all operands and admissible moduli at (W,N) in {(2,2),(2,3),(3,2)[,(4,2)]}")
 
+A64_OPS = ("raw.add", "raw.sub", "raw.shl1", "raw.mul", "raw.sqr", "raw.redc", "raw.fpmul", "raw.fpsqr")
+def aarch64(run, cases, tier):
+    """returns (fails, note); note is set when the configuration could not be covered (never a violation)"""
+    import subprocess, random
+    sc = vlib.scratch()
+    d = os.path.join(sc, "a64")
+    p = subprocess.run(["python3", os.path.join(vlib.VERIF, "tools", "a64_listing.py"), d], stdout=subprocess.PIPE, stderr=subprocess.STDOUT, text=True,
+                       env=dict(os.environ, VERIF_REPO=vlib.REPO))
+    if p.returncode != 0:
+        return [], "aarch64 assembly: could not be assembled/disassembled here (%s)" % p.stdout.strip()[-200:]
+    rows = [c for c in vlib.read_ndjson(cases) if c.get("op") in A64_OPS and c.get("impl", "member") == "member"]
+    for c in rows: c["cfg"] = "a64"; c.pop("impl", None)
+    if tier == "quick":
+        by = {}
+        for c in rows: by.setdefault((c["op"], c.get("alias", 0)), []).append(c)
+        rnd = random.Random(vlib.seed()); rows = []
+        for k in sorted(by): rnd.shuffle(by[k]); rows += by[k][:16]
+    tf = os.path.join(sc, "a64.trace.ndjson"); vlib.write_ndjson(tf, rows)
+    fails = run.validate("Trace_A64", [tf], env={"A64LIST": os.path.join(d, "a64.ndjson")}, timeout=3400)
+    run.configs.add("a64 (executed by TLC)")
+    for c in rows: run.classes.add((c["op"], "a64", c.get("alias", 0), "a64", None, "gen", None, None))
+    note = None
+    if "UNMODELLED" in p.stdout: note = "aarch64 assembly: instructions outside the modelled subset: " + p.stdout.strip()[-300:]
+    run.extra["aarch64_vectors_executed"] = len(rows)
+    return fails, note
+
 def replay(path):
+    d = json.load(open(path))
+    if d.get("event", {}).get("cfg") == "a64":
+        run = Run("C03", "quick")
+        sc = vlib.scratch()
+        one = os.path.join(sc, "one.cases.ndjson"); vlib.write_ndjson(one, [dict(d["event"], impl="member")])
+        fails, note = aarch64(run, one, "thorough")
+        if fails:
+            print("VIOLATION property=C03 replay=%s" % path); print("  labels=%s" % fails[0][1]); return 1
+        print("replay: event accepted" + (" (%s)" % note if note else "")); return 0
     return replay_event("C03", path, FIELD, key_of)
